@@ -82,6 +82,9 @@ func c01Compare(ix *model.Index, exp *model.Expected, resp *dns.Msg, qname strin
 		return "no response written"
 	}
 	got := harness.CanonMsg(resp)
+	if got.TC {
+		return "" // truncated for the client's buffer: which records survive is not prescribed (size rule: C13/C20)
+	}
 	if got.Rcode != exp.Rcode {
 		return fmt.Sprintf("rcode %d, prescribed %d (%s)", got.Rcode, exp.Rcode, exp.Class)
 	}
@@ -229,7 +232,7 @@ func c01One(ix *model.Index, w *gen.World, sv *harness.Server, q gen.Query, c ge
 	loc, _ = clientLoc(w.Maps, q.Name, c)
 	exp = ix.Resolve(q.Name, q.Type, loc)
 	req := buildQuery(q, c, rng, 4711)
-	res := sv.Serve(req, harness.NewWriter(c.IP, false), maxAns)
+	res := sv.Serve(req, harness.NewWriter(c.IP, len(q.Name) > 60), maxAns) // long names over TCP so that answers are not truncated
 	if res.Panic != "" {
 		return "handler panicked: " + res.Panic, exp, loc
 	}
